@@ -4,7 +4,7 @@ from __future__ import annotations
 
 import ast
 
-from ..driver import Driver, Facts, StepHarness, _leaves, atom, dyn_signature, integer_atom, leaf_key
+from ..driver import Driver, Facts, StepHarness, _leaves, atom, dyn_signature, field_signature, integer_atom, leaf_key
 from ..index import AnalysisError
 from ..poly import Rat
 from ..values import Closure, Obj, Partial, Raised, to_rat
@@ -175,7 +175,7 @@ def _reverse(ctx, params, slices=(1, 2, 3)):
             for name, got in zip(params[:9], v["primals"]):
                 if [leaf_key(x) for _, x in _leaves(got)] != [leaf_key(x) for _, x in _leaves(table[name])]:
                     bad.append(name)
-        at_prev = to_rat(st[0]).equals(tau - 1) and isinstance(dyn_signature(post), tuple) and dyn_signature(post)[:2] == ("run", "bwd")
+        at_prev = to_rat(st[0]).equals(tau - 1) and isinstance(field_signature(post), tuple) and field_signature(post)[:2] == ("run", "bwd")
         ctx.ob("R4.2", f"{label}:vjp-primals", not bad and at_prev, "the step is linearised at the state just reconstructed (step tau - 1), each primal in the wrapper parameter of the same name", bad, params[:9])
         # cotangent threading
         cin = v["cot_in"]
